@@ -346,12 +346,12 @@ def check_fault_scenarios(ctx, scns, avail):
                 bad = "stdout (as multiset of lines): rg %r, model %r" % (r["out"], m_out)
         # ---- the property's table, directly on the scenario
         searched = [i for i in items if i["kind"] == "hay"]
-        any_match = any(i["res"] == 0 for i in searched) and not s["max0"]
+        any_match = any(i["res"] == 0 for i in searched)
         any_error = any(i["kind"] == "err" or (i["kind"] == "hay" and i["res"] == 2) for i in items)
-        if s["implicit"] and not searched:
-            any_error = True
+        if s["implicit"] and not searched and s["mode"] != "files":
+            any_error = True          # "No files were searched" is an error message
         if s["max0"] and s["mode"] != "files":
-            any_error, any_match = False, False
+            any_error, any_match = False, False     # -m0: nothing can match, nothing is searched
         want = property_status(any_match, quiet, any_error)
         oracle_bad = None
         if r["status"] != want:
@@ -382,6 +382,8 @@ def _all_possible_diags(s, items):
             res.append((1, i["path"]))
         elif i["kind"] == "hay" and i["res"] == 2:
             res.append((1, i["path"]))
+    if s["implicit"]:
+        res.append((3, ""))
     return res
 
 
@@ -495,10 +497,22 @@ def check_pipe(ctx, rng, n):
                 m = f != "none"
                 has_out = m or c["mode"] == "passthru"
                 items.append(dict(kind="hay", path=f, res=0 if m else 1, out=b"x" if has_out else b""))
-        for pipe_at in [None] + [i for i, it in enumerate(items) if it["out"]]:
-            line, _ = model_line(s, items, one_file, pipe_at=pipe_at)
-            lines.append(line)
-            owners.append(ci)
+        par = c["threads"] > 1 and not one_file
+        line, _ = model_line(s, items, one_file, pipe_at=None)
+        lines.append(line)
+        owners.append(ci)
+        for pipe_at in [i for i, it in enumerate(items) if it["out"]]:
+            others = [j for j in range(len(items)) if j != pipe_at]
+            if par:
+                # any set of the other files may have completed before the write that failed
+                orders = [[j for b, j in enumerate(others) if mask >> b & 1] for mask in range(1 << len(others))]
+            else:
+                orders = [list(range(pipe_at))]
+            for before in orders:
+                sub = [items[j] for j in before] + [items[pipe_at]]
+                line, _ = model_line(s, sub, one_file, pipe_at=len(before))
+                lines.append(line)
+                owners.append(ci)
     mo = vlib.model(1501, lines)
     accept = {}
     for ci, m in zip(owners, mo):
